@@ -690,11 +690,14 @@ LT_BASIC = ['\n']
 LT_ALL = ['\n', '\r', '\r\n', u'\u2028', u'\u2029', '\n\n', ' \n  ', u'\u2028\n']
 LT_NO_LSPS = ['\n', '\r', '\r\n', '\n\n', ' \n  ', '\r\n\t']
 COMMENTS_INLINE = ['/*c*/', '/**/', '/* a * b / */', u'/*\u00e9*/', '/*//*/', '/* t */', '/*\t*/', '/* */',
-                   '/*a\x0cb*/', u'/*\x0b\x85*/']
+                   '/*a\x0cb*/', u'/*\x0b\x85*/',
+                   # text that is not in Unicode normalisation form C (ES5 6: not to be normalised)
+                   u'/*e\u0301 A\u030a*/', u'/*\u212b*/']
 COMMENTS_ML = ['/*c\nc*/', '/*\n*/', '/*\r\n * x\r\n */', u'/*a\u2028b*/', u'/*\u2029*/', '/*\r*/', '/*a\rb*/',
-               '/*\n * a\n * b\n * c\n */', '/*\x0c\n\x0b*/']
+               '/*\n * a\n * b\n * c\n */', '/*\x0c\n\x0b*/', u'/*o\u0302\u0323\n*/']
 COMMENTS_LINE = ['//c\n', '//\n', '// a /* b\n', u'//\u00e9\r\n', '//x\r', u'//c\u2028', u'// d\u2029',
-                 '// t  \n', '//\t\n', '// \n', u'//u\u00a0\n', '//v \t\r\n', '//  lead\n', '// page\x0c\n', u'//w\x85\n', '//\x0b \n']
+                 '// t  \n', '//\t\n', '// \n', u'//u\u00a0\n', '//v \t\r\n', '//  lead\n', '// page\x0c\n', u'//w\x85\n', '//\x0b \n',
+                 u'//n\u0303o\n']
 
 _join_cache = {}
 
